@@ -238,6 +238,18 @@ class MethodTr:
             if ta != tb:
                 fail(n, "conditional expression with different types")
             return ("(if %s then %s else %s)" % (c, a, b), ta)
+        if isinstance(n, ast.BoolOp) and isinstance(n.op, ast.Or) and getattr(self, "in_error_arg", False):
+            # `tok_a or tok_b` as the token argument of new_error: a Token is always truthy, None is not
+            if len(n.values) != 2:
+                fail(n, "`or` of more than two tokens")
+            ok = self.pre_ok
+            a, ta = self.ex(n.values[0], env)
+            self.pre_ok = False
+            b, tb = self.ex(n.values[1], env)
+            self.pre_ok = ok
+            if ta != "opttok" or tb != "opttok":
+                fail(n, "`or` in a new_error argument must join two peek_token results")
+            return ("(or_tok %s %s)" % (a, b), "opttok")
         if isinstance(n, ast.BoolOp):
             parts = []
             ok, hg = self.pre_ok, self.hist_guard
@@ -471,7 +483,11 @@ class MethodTr:
             self.codes.append(code)
 
             def build():
-                a, ta = self.ex(c.args[1], env)
+                self.in_error_arg = True
+                try:
+                    a, ta = self.ex(c.args[1], env)
+                finally:
+                    self.in_error_arg = False
                 if ta == "tok":
                     a = "(Some %s)" % a
                 elif ta != "opttok":
